@@ -156,7 +156,7 @@ class Names:
         "names.soft_keyword": ["match", "type", "case"],
         "names.pydantic_attr": ["copy", "json", "dict", "schema", "construct", "validate", "fields",
                                 "modelDump", "schemaJson", "parseObj", "modelFields", "fromOrm", "modelCopy", "modelExtra"],
-        "names.leading_underscore": ["_private", "_Private2", "_camelCase", "_x", "_id"],
+        "names.leading_underscore": ["_private", "_Private2", "_camelCase", "_x", "_id", "_from", "_class", "_in", "_json", "_copy"],
         "names.builtin": ["id", "list", "str", "type_", "object", "print", "self", "cls"],
         "names.method_locals": ["query", "variables", "response", "data", "kwargs", "operation_name"],
         "names.underscore_digit": ["_1", "_2x", "_3_a"],
